@@ -29,7 +29,7 @@ import random
 import signal
 import warnings
 
-from vp import core, canon, gen_graphs
+from vp import core, canon, gen_graphs, pipe, shacldoc
 
 RDF_TYPE = gen_graphs.RDF_TYPE
 XSD = gen_graphs.XSD
@@ -118,6 +118,8 @@ def _analyse_case(case):
            "unreadable": False}
     if r["status"] != "ok":
         return out
+    # the whole SHACL document against Model.ShaclDoc.shacl_graph (rdflib graph isomorphism)
+    out["shacldoc"] = shacldoc.compare_c11(case, r)
     try:
         doc = canon.parse_shexc(r["shexc"])
         sdoc = canon.parse_shacl(r["shacl"]) if r["shacl"] is not None else None
@@ -489,6 +491,7 @@ def run(tier, seed, replay=None):
     forms_seen = collections.Counter()
     rows_unconfirmed = 0
     shacl_errors = collections.Counter()
+    iso_kinds = collections.Counter()
     pos = 0
     lpos = 0
     realised = []
@@ -587,6 +590,11 @@ def run(tier, seed, replay=None):
                                 break
             if cf is not None:
                 corr_fail.append((ci, cf))
+        sd = r.get("shacldoc")
+        if sd is not None:
+            iso_kinds[sd["kind"]] += 1
+            if not sd["agree"]:
+                corr_fail.append((ci, ("shacl_graph (whole document, isomorphism)", sd["kind"], sd["detail"], None)))
         if len(samples) < 4 and n and ci % 97 == 5:
             samples.append({"tag": case["tag"], "switches": case["switches"], "thr": case["thr"],
                             "n_triples": case["nt"].count("\n"), "constraints": [l["raw"] for l in lines][:6],
@@ -624,6 +632,9 @@ def run(tier, seed, replay=None):
                   for k in range(0, len(idx), 25)]
         if all_lrows:
             vcases.append(("c11_label", all_lrows[:25], label_out[:25]))
+        for case in [c for c, r in zip(cases, results) if r.get("shacldoc") and r["shacldoc"]["kind"] == "isomorphic"][:6]:
+            t = pipe.model_table(shacldoc.ts_of_nt(case["nt"]), shacldoc.cfg_of_c11_case(case))
+            vcases.append(("shacl_doc", t, mb.call("shacl_doc", t)))
         _, mism, log = core.vm_crosscheck(vcases, "c11", per_file=4)
         vm_n = len(idx)
         if mism:
@@ -695,6 +706,7 @@ def run(tier, seed, replay=None):
         "kinds_seen": dict(kinds_seen),
         "forms_seen": dict(forms_seen),
         "real_shacl_errors": dict(shacl_errors),
+        "shacl_graph_isomorphism": dict(iso_kinds),
         "known_finding_hits": dict(known_hits),
         "corpus_cases_replayed_first": len(corpus),
         "corpus_cases_passing": sum(1 for i in range(len(corpus)) if results[i]["status"] == "ok"
@@ -712,6 +724,10 @@ def run(tier, seed, replay=None):
         "IRIs, value expressions and cardinalities mirrors Spec/ConstraintSpec.v (read_tc) and is compared with the "
         "model's shex_view on every line",
         "detect_minimal_iri off, default instantiation property, disable_or_statements default (no OR statements)",
+        "whole-document correspondence: the real SHACL document of every case, parsed by rdflib, is isomorphic to the "
+        "abstract graph of Model.ShaclDoc.shacl_graph on the shapes of Model.Run.run_shapes (harness/vp/shacldoc.py); "
+        "Props/C05.v proves S1-S3 (sh:node objects declared, one path per property shape, one node shape per shape) "
+        "about that graph",
         "the class of a shape is taken from the generator (label = shapes namespace + local name of the class)",
     ]
     return run.finish(bs)
